@@ -35,6 +35,13 @@ class Builder:
         self.counter = 0
         self.node_name = {}    # node id -> name (named tensors only)
         self.stmt_node_count = []  # nodes existing after each impl statement
+        self.mcount = []           # model statements emitted after each impl statement
+        self.names_at = []         # node -> name mapping after each impl statement
+
+    def _mark(self):
+        self.stmt_node_count.append(self.n_nodes)
+        self.mcount.append(len(self.mstmts))
+        self.names_at.append(dict(self.node_name))
 
     # -------------------------------------------------------------------------------- primitives
     def fresh(self, prefix="t"):
@@ -64,7 +71,7 @@ class Builder:
         self.tensors[name] = t
         self.order.append(name)
         self.node_name[node] = name
-        self.stmt_node_count.append(self.n_nodes)
+        self._mark()
         return t
 
     def rng_vals(self, shape, lo=-3, hi=3):
@@ -125,7 +132,7 @@ class Builder:
         self.tensors[name] = t
         self.order.append(name)
         self.node_name[node] = name
-        self.stmt_node_count.append(self.n_nodes)
+        self._mark()
         return t
 
     def backward(self, t, seed=None):
@@ -137,23 +144,23 @@ class Builder:
             mseed = exactops.flat(np.broadcast_to(seed, t.shape))
         self.stmts.append(s)
         self.mstmts.append(("backward", t.node, mseed))
-        self.stmt_node_count.append(self.n_nodes)
+        self._mark()
 
     def clear(self, t):
         self.stmts.append({"op": "clear", "t": t.name})
         self.mstmts.append(("clear", t.node))
-        self.stmt_node_count.append(self.n_nodes)
+        self._mark()
 
     def null_grad(self, t):
         self.stmts.append({"op": "null_grad", "t": t.name})
         self.mstmts.append(("null_grad", t.node))
-        self.stmt_node_count.append(self.n_nodes)
+        self._mark()
 
     def delete(self, names):
         for n in names:
             self.tensors.pop(n, None)
         self.stmts.append({"op": "del", "names": list(names)})
-        self.stmt_node_count.append(self.n_nodes)
+        self._mark()
 
     def case(self, observe="backward"):
         return {"stmts": self.stmts, "observe": observe}
@@ -501,16 +508,7 @@ def coq_tobs(o):
 
 def model_stmt_index(b):
     """impl statement i (0-based) -> number of model statements executed after it"""
-    # model statements: one per impl statement plus one per non-tensor operand (emitted before the app)
-    out = []
-    mi = 0
-    for s in b.stmts:
-        if s["op"] == "apply":
-            mi += sum(1 for a in s["args"] if not isinstance(a, str))
-        if s["op"] != "del":
-            mi += 1
-        out.append(mi)
-    return out
+    return list(b.mcount)
 
 
 def exact_safe(result):
@@ -527,11 +525,14 @@ def coq_gcase(b, result):
     """history + what the implementation did, as a Model/GraphCorr.v gcase term"""
     mindex = model_stmt_index(b)
     outs = []
-    for s, exc in zip(b.stmts, result["outcomes"]):
-        n_extra = sum(1 for a in s.get("args", []) if not isinstance(a, str)) if s["op"] == "apply" else 0
-        outs.extend([0] * n_extra)
-        if s["op"] != "del":
-            outs.append(OUT_CODE.get(exc, 2))
+    prev = 0
+    for s, exc, mc in zip(b.stmts, result["outcomes"], mindex):
+        k = mc - prev
+        prev = mc
+        if k <= 0:
+            continue
+        outs.extend([0] * (k - 1))
+        outs.append(OUT_CODE.get(exc, 2))
     snaps = []
     for snap in result["observations"]:
         after = snap["after"]          # number of impl statements executed
@@ -545,6 +546,37 @@ def coq_gcase(b, result):
             tob.append(coq_tobs(snap["obs"].get(nm)) if nm is not None else "None")
         snaps.append("(%d%%nat, [%s])" % (m_after, ";".join(tob)))
     return "(%s,\n %s,\n [%s])" % (coq_history(b), nlist(outs), ";\n  ".join(snaps))
+
+
+def coq_vobs(o, with_grad):
+    if o is None:
+        return "None"
+    if with_grad:
+        g = o["grad"]
+        gs = "(Some %s)" % ("None" if g is None else "(Some %s)" % zlist(g))
+    else:
+        gs = "None"
+    return "(Some (%s, %s, %s))" % (gs, coq_bool(o["const"]), zlist(o["data"]))
+
+
+def coq_fcase(b, result, grad_filter=None):
+    """history with in-place updates (functional meaning) + values/flags (+ gradients where grad_filter(name, obs)) after the
+    observed statements"""
+    snaps = []
+    for snap in result["observations"]:
+        after = snap["after"]
+        if after == 0 or after > len(b.mcount):
+            continue
+        m_after = b.mcount[after - 1]
+        names = b.names_at[after - 1]
+        n_nodes = b.stmt_node_count[after - 1]
+        tob = []
+        for k in range(n_nodes):
+            nm = names.get(k)
+            o = snap["obs"].get(nm) if nm is not None else None
+            tob.append(coq_vobs(o, bool(grad_filter and o is not None and grad_filter(nm, o))))
+        snaps.append("(%d%%nat, [%s])" % (m_after, ";".join(tob)))
+    return "(%s,\n [%s])" % (coq_history(b), ";\n  ".join(snaps))
 
 
 HEADER = ("From Coq Require Import ZArith List. Import ListNotations.\n"
